@@ -56,9 +56,9 @@ def check(pid, tier):
         if rep["drift"]:
             run.notes.append("first drift line %d: %s" % (rep["drift"][0], lines[rep["drift"][0] - 1][:300]))
         record_violations(run, pid, rep["viol"], lines, trace_name="store")
-        # 5. reopen events inside ordinary lease histories (rows preserved exactly)
+        # 5. ordinary lease histories: what is acknowledged is stored (C18e), reopen preserves every row exactly (C18a)
         t5 = run.path("lease.ndjson")
-        rs = [s for s in scen if any(st["k"] == "restart" for st in s["steps"])]
+        rs = [s for s in scen if any(st["k"] == "restart" for st in s["steps"])] + [dhcp_lease.fill_scenario(run.rng, "pool" if i % 3 else "pkt", i) for i in range(10 if not run.thorough else 150)]
         sf2 = run.path("scen-restart.ndjson")
         open(sf2, "w").write("".join(json.dumps(s) + "\n" for s in rs))
         drive(run, "dhcp", ["--scenarios", sf2, "--out", t5, "--dbdir", run.path("db")])
